@@ -89,9 +89,10 @@ def check_keywords(ctx, rep, rule=RULE + '.a'):
             build = bcls[0].methods['build']
             for c in ctx.prog.calls_in(build):
                 nm = ctx.callee_name(build, c)
-                if nm in ('get_symbol_set', 'get_state', 'get_symbol', 'parse_symbol') and c.args and isinstance(c.args[0], ast.Constant):
+                kw0 = [k0.value for k0 in c.keywords if k0.arg == 'key' and isinstance(k0.value, ast.Constant)]
+                if nm in ('get_symbol_set', 'get_state', 'get_symbol', 'parse_symbol') and ((c.args and isinstance(c.args[0], ast.Constant)) or kw0):
                     n += 1
-                    k = c.args[0].value
+                    k = c.args[0].value if c.args else kw0[0].value
                     if k in kws:
                         rep.holds(rule, build, c, "the builder reads '{}', a keyword of this kind".format(k), nontrivial=False)
                     else:
@@ -106,8 +107,11 @@ def check_keywords(ctx, rep, rule=RULE + '.a'):
             for c in ctx.prog.calls_in(build):
                 nm = ctx.callee_name(build, c)
                 if nm in ('get_symbol_set', 'get_state', 'get_symbol', 'parse_symbol'):
+                    kwkey = [k.value for k in c.keywords if k.arg == 'key' and isinstance(k.value, ast.Constant)]
                     if c.args and isinstance(c.args[0], ast.Constant):
                         consumed.add(c.args[0].value)
+                    elif kwkey:
+                        consumed.add(kwkey[0].value)
                     elif not c.args and nm == 'parse_symbol':
                         r = ctx.resolve_call(build, c)
                         d = r.target.defaults.get('key') if r is not None and r.kind == 'func' else None
